@@ -11,6 +11,7 @@
     Definitions only. *)
 From Coq Require Import ZArith List Bool Floats.
 From Geo Require Import Base.GoPrim Gen.R3 Gen.S2Point Gen.CrosserLeaf Model.Crosser.
+From Geo Require Import Gen.S2Pred.  (* s2_triageSign *)
 Import ListNotations.
 Local Open Scope Z_scope.
 Local Open Scope bool_scope.
